@@ -116,13 +116,30 @@ type worker struct {
 }
 
 type tailBuf struct {
-	mu  sync.Mutex
-	buf []byte
+	mu     sync.Mutex
+	buf    []byte
+	pinned bool // keep everything from the pin on (a goroutine dump is read from its head)
+}
+
+// Pin drops what was written so far and stops trimming (up to 32 MiB).
+func (t *tailBuf) Pin() {
+	t.mu.Lock()
+	defer t.mu.Unlock()
+	if len(t.buf) > 1<<16 {
+		t.buf = append([]byte(nil), t.buf[len(t.buf)-(1<<16):]...)
+	}
+	t.pinned = true
 }
 
 func (t *tailBuf) Write(p []byte) (int, error) {
 	t.mu.Lock()
 	defer t.mu.Unlock()
+	if t.pinned {
+		if len(t.buf) < 32<<20 {
+			t.buf = append(t.buf, p...)
+		}
+		return len(p), nil
+	}
 	t.buf = append(t.buf, p...)
 	if len(t.buf) > 1<<20 {
 		t.buf = t.buf[len(t.buf)-(1<<19):]
@@ -293,8 +310,9 @@ func (w *worker) do(job json.RawMessage, timeout time.Duration) (out json.RawMes
 		return env.Res, env.Err, false, false
 	case <-time.After(timeout):
 		// ask for a goroutine dump before killing, it explains the hang
+		w.stderr.Pin()
 		w.cmd.Process.Signal(syscall.SIGQUIT)
-		time.Sleep(300 * time.Millisecond)
+		time.Sleep(time.Second)
 		return nil, "", false, true
 	}
 }
